@@ -206,6 +206,22 @@ func Extract() *fx.Group {
 		minLen = 0
 	}
 	g.Nat("inodeMinLen", minLen)
+	// --- does inodeFromBytes take the words of the extra area (the extra timestamp words, the creation time)
+	// straight from the record, whatever i_extra_isize says?
+	unguarded := true
+	if ifb != nil {
+		for _, v := range []string{"accessTimeExtra", "changeTimeExtra", "modifyTimeExtra", "createTimeExtra", "createTimeSeconds"} {
+			rhs := fx.AssignRHS(ifb, v)
+			if rhs == nil {
+				g.Missing("inodeFromBytes " + v)
+				continue
+			}
+			if !strings.Contains(fx.Src(rhs), "binary.LittleEndian.Uint32(b[") {
+				unguarded = false
+			}
+		}
+	}
+	g.Bool("inodeExtraWordsUnguarded", unguarded)
 	// --- directoryEntryFromBytes: is the end of the name computed wider than uint8?
 	dfb := fx.FindFunc(df, "", "directoryEntryFromBytes")
 	wide, foundName := false, false
@@ -357,6 +373,27 @@ func deepFacts(g *fx.Group, ef *ast.File) {
 	}
 	g.Bool("readSkipLe", skipLe)
 	g.Nat("readClears", int64(clears))
+	// --- File.Read passes over an extent that lies wholly before the offset reached: `if leftInExtent < 0 { continue }`
+	skipsBefore := false
+	if rd != nil {
+		ast.Inspect(rd.Body, func(n ast.Node) bool {
+			is, ok := n.(*ast.IfStmt)
+			if !ok || is.Init != nil {
+				return true
+			}
+			be, ok := is.Cond.(*ast.BinaryExpr)
+			if !ok || be.Op != token.LSS || fx.Src(be.X) != "leftInExtent" || fx.Src(be.Y) != "0" {
+				return true
+			}
+			for _, st := range is.Body.List {
+				if br, ok := st.(*ast.BranchStmt); ok && br.Tok == token.CONTINUE {
+					skipsBefore = true
+				}
+			}
+			return true
+		})
+	}
+	g.Bool("readSkipsExtentBefore", skipsBefore)
 	// --- groupDescriptorFromBytes: the descriptor size at which the high halves are read
 	gfb := fx.FindFunc(gf, "", "groupDescriptorFromBytes")
 	wide := int64(-1)
